@@ -191,9 +191,22 @@ impl World {
                     format!("task '{}' is still blocked in {what} although Client::run of client{} has returned", info.name, info.client),
                 ));
             } else if (must || dyn_must) && !after_client_stop {
+                // The awaited operation says whose promise is broken besides C06's "completes once
+                // its peer has acted": a bus listener that never reports the end of the current
+                // entities (C10), an event stream or subscription (C04), a discovery view (C19).
+                let mut props = vec![Prop::C06, Prop::C05];
+                if what.starts_with("BusListener::") {
+                    props.push(Prop::C10);
+                } else if what.starts_with("Proxy::") || what == "server emit+sync" {
+                    props.push(Prop::C04);
+                } else if what.starts_with("Discoverer") || what.starts_with("Lifetime") || what == "Handle::find_object" || what == "Handle::wait_for_object" {
+                    props.push(Prop::C19);
+                } else if what == "PendingReply" {
+                    props.push(Prop::C02);
+                }
                 vs.push(Violation::new(
                     "liveness.blocked-at-quiescence",
-                    &[Prop::C06, Prop::C05],
+                    &props,
                     format!("task '{}' is blocked in {what} at quiescence although its peer has acted (lost wake-up or deadlock)", info.name),
                 ));
             }
@@ -911,7 +924,9 @@ pub fn api_harness(spec: &RunSpec) -> RunOutput {
                     };
                     vs.push(Violation::new(
                         rule,
-                        &[Prop::C06, Prop::C15, Prop::C12],
+                        // A client that stops with an error (no fault injected into it) stops
+                        // delivering everything the API-level properties promise.
+                        &[Prop::C06, Prop::C15, Prop::C12, Prop::C04, Prop::C05, Prop::C10, Prop::C19],
                         format!("Client::run of client{i} (1.{}) returned {e} (victim={victim}, fault fired={fired}, fault={fault_kind}@{fault_at})", c.minor),
                     ));
                 }
